@@ -112,6 +112,11 @@ def gen_case(prop: str, seed: int, tier: str, index: int, classes: List[str]) ->
         # one total blackout, longer than the detection bound, starting in steady state
         plan = [{"op": "phase", "t": round(rng.uniform(8.0, 14.0), 3), "kind": "blackout", "dur": round(detection_bound(tables) + rng.choice([2.0, 10.0]), 1)}]
         end = plan[0]["t"] + plan[0]["dur"]
+    # the name is optional in set-spa-info (it is learnt from the discovery reply when connecting): leave it out now and then
+    rng_name = random.Random(mix(seed, "setinfo-name"))
+    for op in plan:
+        if op["op"] == "setinfo":
+            op["name"] = rng_name.choice(["given", "given", "none"])
     plan.sort(key=lambda o: (o["t"], o["op"]))
     snaps = snapshot_files()
     cfg = {"class": cls, "net": {"lat_min": 0.001, "lat_max": 0.004}, "loop": loop_cfg, "tables": tables, "end": round(end + 5, 3),
@@ -250,7 +255,9 @@ async def scenario(world: WorldA) -> None:
             if kind == "reset":
                 await man.async_reset()
             else:
-                await man.async_set_spa_info(SPA_IP, SPA_ID, SPA_NAME)
+                if op.get("name") == "none":
+                    res.probe("set_spa_info_without_a_name")
+                await man.async_set_spa_info(SPA_IP, SPA_ID, None if op.get("name") == "none" else SPA_NAME)
         except asyncio.CancelledError:
             orc.user_resets -= 1
             raise
